@@ -78,7 +78,7 @@ func runC02(c map[string]interface{}) []Event {
 	case "agg":
 		pg := decPolys(c["polys"], half)
 		vs := decPath(c["vs"], half)
-		e := Event{"ev": "agg", "res": -1}
+		e := Event{"ev": "agg", "res": -1, "splitsame": true}
 		e["out"] = safely(func() {
 			var r geom.WithinStatus
 			switch str(c["recv"]) {
@@ -87,7 +87,14 @@ func runC02(c map[string]interface{}) []Event {
 			case "LineString":
 				r = geom.LineString(vs).Within(pg)
 			case "MultiLineString":
+				// the vertices are distributed over two members in every way that keeps their order (one-vertex members
+				// among them): the answer is about the vertices and has to be the same for all of them
 				r = geom.MultiLineString{geom.LineString(vs[:2]), geom.LineString(vs[2:])}.Within(pg)
+				for k := 1; k < len(vs); k++ {
+					if (geom.MultiLineString{geom.LineString(vs[:k]), geom.LineString(vs[k:])}).Within(pg) != r {
+						e["splitsame"] = false
+					}
+				}
 			case "Polygon":
 				r = geom.Polygon{vs}.Within(pg)
 			}
